@@ -98,7 +98,7 @@ def truncated(ctx, conversation, pv=757, n_max=None, sentinel=False):
                                               data=ctx.bytes('pm', 4)))
     threshold = 256 if conversation == 'play_z' else None
     n_total = {'status': 200, 'play': 200, 'play_z': 200,
-               'connect_status': 200, 'enc': 300}[conversation]
+               'connect_status': 200, 'enc': 240}[conversation]
     cut = ctx.int('cut', 0, n_total)
 
     zl = netenv.ZlibStub()
@@ -109,9 +109,13 @@ def truncated(ctx, conversation, pv=757, n_max=None, sentinel=False):
                     'keep_alive': ctx.int('ka_enc', 0, 127), 'plugin_id0': 0,
                     'plugin_id1': 0, 'disconnect': '', 'server_id': '-'}
         if ctx.mode == 'sym':
-            enc_vals['public_key'] = ctx.bytes('public_key', 8)
-            ctx.env['ks_c2s'] = netenv.Keystream('ks_c2s', 300)
-            ctx.env['ks_s2c'] = netenv.Keystream('ks_s2c', 300)
+            # same sizes as the real thing (1024-bit key: 162-byte DER key,
+            # 128-byte ciphertexts), so that a cut offset means the same in
+            # the symbolic run and in its concrete replay
+            enc_vals['public_key'] = ctx.bytes('public_key', 162)
+            ctx.env['rsa_out_len'] = 128
+            ctx.env['ks_c2s'] = netenv.Keystream('ks_c2s', 600)
+            ctx.env['ks_s2c'] = netenv.Keystream('ks_s2c', 600)
         else:
             from cryptography.hazmat.primitives.asymmetric import rsa
             from cryptography.hazmat.primitives import serialization
